@@ -49,24 +49,26 @@ def generate(scen, c, num, depth, seed, late):
         shutil.rmtree(tmp, ignore_errors=True)
 
 
-def replay_all(behs, scen, c, units, seed, framings=('cl',), jitter=True):
+def replay_all(behs, scen, c, units, seed, framings=('cl',), jitter=True, threaded=False):
     """Run every behaviour on the real stack.  -> (traces for TraceConn, drift list, run infos)"""
     rnd = random.Random(seed)
     traces, drifts, infos = [], [], []
     n = {'N': c['N'], 'CAP': c['CAP'], 'MAXSEND': c['MAXSEND'], 'RECV': c['RECV'], 'OWN': c['OWN']}
     todo = [(b, False) for b in behs] + ([(b, True) for b in behs] if jitter else [])
+    if threaded:
+        todo = [(b, False) for b in behs]
     for k, (b, jit) in enumerate(todo):
         U = units[k % len(units)]
         framing = framings[(k // len(units)) % len(framings)]
         pieces = 1
         if scen == 'reject':
             pieces = len(b[0][2]['cbuf'])
-        run = conn_replay.Run(scen, n, U, seed=rnd.randrange(1 << 30), framing=framing, pieces=pieces, jitter=jit)
-        run.play(b, compare=not jit)
+        run = conn_replay.Run(scen, n, U, seed=rnd.randrange(1 << 30), framing=framing, pieces=pieces, jitter=jit, threaded=threaded)
+        run.play(b, compare=not jit and not threaded)
         evs = run.finish()
         tid = len(traces) + 1
-        traces.append({'id': tid, 'mode': 'tunnel' if scen == 'tunnel' else 'http', 'ev': evs})
-        info = {'id': tid, 'scen': scen, 'U': U, 'framing': framing if scen == 'http' else None, 'pieces': pieces, 'jitter': jit,
+        traces.append({'id': tid, 'mode': 'tunnel' if scen == 'tunnel' else 'http', 'ev': evs, 'exec': 'threaded' if threaded else 'threadless'})
+        info = {'id': tid, 'scen': scen, 'U': U, 'framing': framing if scen == 'http' else None, 'pieces': pieces, 'jitter': jit, 'mode': 'threaded' if threaded else 'threadless',
                 'schedule': [a for a, _, _ in b][1:], 'consts': n, 'run_seed': run.seed,
                 'client_got': len(run.c.got), 'client_eof': run.c.eof_seen,
                 'loop_alive': run.sim.alive}
@@ -100,6 +102,8 @@ def classify(clause, trace, idx):
     """Abstract signature of a rejection, for matching against known_findings.json."""
     evs = trace['ev'][:idx]
     sig = {'clause': clause.split(' (')[0], 'mode': trace['mode']}
+    if trace.get('exec') == 'threaded':
+        sig['exec'] = 'threaded'
     last_send_u = [e for e in evs if e['e'] == 'send' and e['s'] == 'u']
     sig['upstream_write_error_before'] = bool(last_send_u and last_send_u[-1]['res'] == 'err')
     ceof = any(e['e'] == 'recv' and e['s'] == 'c' and e['res'] in ('eof', 'err') for e in evs) or \
